@@ -432,6 +432,12 @@ impl<'w, 'r, 'gc> Cb<'w, 'r, 'gc> {
         }
     }
 
+    fn note_adoption(&mut self, child: Id) {
+        if matches!(self.phase, Phase::Marking | Phase::Marked) {
+            self.w.rt[self.a as usize].adopted_cur.insert(child);
+        }
+    }
+
     fn holder_any(&self, h: Holder) -> Option<Option<AnyGc<'gc>>> {
         match h {
             Holder::Root => Some(None),
@@ -543,6 +549,7 @@ impl<'w, 'r, 'gc> Cb<'w, 'r, 'gc> {
                         self.cover_write("root-write", None, Some(*child));
                         self.w.sh.set_strong(a, Holder::Root, slot, Some(*child));
                         self.note_mutation();
+                        self.note_adoption(*child);
                     }
                     Some(pany) => {
                         let Holder::Obj(pid) = *holder else { unreachable!() };
@@ -569,6 +576,7 @@ impl<'w, 'r, 'gc> Cb<'w, 'r, 'gc> {
                                 }
                                 self.w.sh.set_strong(a, *holder, slot, Some(*child));
                                 self.note_mutation();
+                                self.note_adoption(*child);
                             }
                             Wrote::Refused => {
                                 self.rep.only_barriers = false;
@@ -697,6 +705,7 @@ impl<'w, 'r, 'gc> Cb<'w, 'r, 'gc> {
                 self.w.sh.next_hid = self.w.sh.next_hid.max(handle + 1);
                 self.w.handles.insert(*handle, HandleState { real, group, arena: a, obj: *obj });
                 self.w.stats.stashes += 1;
+                self.note_adoption(*obj);
                 if self.phase != Phase::Sleeping {
                     self.w.stats.flag("C14.handle-op-mid-cycle");
                 }
@@ -933,6 +942,7 @@ impl<'w, 'r, 'gc> Cb<'w, 'r, 'gc> {
                         self.traverse_from(t, g, "C05.closure");
                         if self.w.ok() {
                             self.w.stats.flag("C05.stored");
+                            self.w.rt[self.a as usize].up_stored.insert(t);
                             self.exec_op_inner(&Op::Link { holder: h2, slot: s2, child: t, route });
                         }
                     }
